@@ -4,6 +4,8 @@
    the per-case comparison functions of the correspondence check. *)
 From Coq Require Import QArith ZArith List Bool Arith.
 From LV Require Import Common.Cases Cluster.Flat Cluster.FlatQ Cognates.Components Cognates.Partial.
+From LV Require Wordlist.SerializeStr Wordlist.Serialize.
+From LVGen Require PartialRc.
 Import ListNotations.
 Local Open Scope nat_scope.
 
@@ -129,32 +131,83 @@ Definition derive_code (src : pids) (order : list nat) (strict : list nat) (loos
       + bit 6 (loose_exactb cs loose)
   end.
 
+(* a source cell read from a file: (word key, (the cell as written, the cell as the wordlist holds it
+   after loading: Some l = a list of the integers l, None = anything else)) *)
+Definition file_cell := (nat * (list Z * option (list Z)))%type.
+
+(* the converter model (Wordlist/Serialize.parse_cell with the class that the current wordlist.rc,
+   gen/PartialRc.v, gives the column) agrees with what was loaded *)
+Definition cell_model_okb (header : list Z) (c : file_cell) : bool :=
+  match Serialize.parse_cell (Serialize.class_of PartialRc.partial_rc header) (fst (snd c)), snd (snd c) with
+  | Serialize.VInts l, Some l' => list_eqb Z.eqb l l'
+  | Serialize.VInts _, None => false
+  | _, Some _ => false
+  | _, None => true
+  end.
+
+(* the loaded cell is the list of ids that was written *)
+Definition cell_loaded_okb (src : pids) (c : file_cell) : bool :=
+  match assoc_src (fst c) (concat src), snd (snd c) with
+  | Some ids, Some l => list_eqb Z.eqb (map Z.of_nat ids) l
+  | _, _ => false
+  end.
+
 Record derive_case := {
   dc_src : pids;               (* the source ids as the caller wrote them (dict cell or file cell) *)
   dc_order : list nat;
   dc_strict : list nat;
   dc_loose : list (list nat);
-  dc_loaded_ok : bool          (* harness: every source cell, as loaded, is that list of integers *)
+  dc_header : list Z;          (* file input: the (lower-cased) header of the source column *)
+  dc_cells : list file_cell    (* file input: the source cells; [] for dictionary input *)
 }.
 
 Definition derive_case_code (c : derive_case) : nat :=
-  derive_code (dc_src c) (dc_order c) (dc_strict c) (dc_loose c) + bit 7 (dc_loaded_ok c).
+  derive_code (dc_src c) (dc_order c) (dc_strict c) (dc_loose c)
+  + bit 7 (forallb (cell_model_okb (dc_header c)) (dc_cells c))
+  + bit 9 (forallb (cell_loaded_okb (dc_src c)) (dc_cells c)).
 
 (* ------------------------------------------------------------------ *)
 (* partial_cluster: model vs implementation + checkers.  A case is a history of
    calls on ONE Partial object (every call writes its own column); every call is
    compared with the model for that call's own parameters. *)
 
+(* a clustering routine as a table of recorded (matrix, dictionary) pairs *)
+Definition mat_eqb : mat -> mat -> bool := list_eqb (list_eqb Qeq_bool).
+
+Definition clus_table := list (mat * list (nat * nat)).
+
+Fixpoint table_clus (t : clus_table) (m : mat) : list (nat * nat) :=
+  match t with
+  | [] => []
+  | (m', rv) :: tl => if mat_eqb m m' then rv else table_clus tl m
+  end.
+
+(* the contract of a clustering routine, on one recorded dictionary: every position
+   0..n-1 has a cluster id, and the id lies in 1..n *)
+Definition clus_okb (n : nat) (rv : list (nat * nat)) : bool :=
+  forallb (fun p => match assoc p (rev rv) with
+                    | Some v => Nat.leb 1 v && Nat.leb v n
+                    | None => false
+                    end) (seq 0 n).
+
 Record call := {
   k_cfg : config;
   k_cmp : nat;                 (* 0: ids not compared (float tie), 1: as partitions, 2: exactly *)
   k_status : nat;              (* implementation: 0 returned, 1 raised ZeroDivisionError, 2 AttributeError *)
-  k_out : pids                 (* implementation: the partial-id column written by this call *)
+  k_out : pids;                (* implementation: the partial-id column written by this call *)
+  k_clus : clus_table;         (* [] : a flat linkage method (modelled); otherwise what the clustering
+                                  routine (mcl, external_function) returned for each matrix it was given *)
+  k_ranged : bool              (* the routine is expected to return ids in 1..n *)
 }.
 
 Definition call_code (wl : list concept) (t : table) (c : call) : nat :=
-  let model := partial_cluster (table_dist t) (k_cfg c) wl in
-  match k_status c with
+  let cf := k_cfg c in
+  let model := match k_clus c with
+               | [] => partial_cluster (table_dist t) cf wl
+               | ct => partial_cluster_any (table_dist t) (c_imap cf) (c_post cf) (table_clus ct) wl
+               end in
+  bit 8 (negb (k_ranged c) || forallb (fun mr => clus_okb (length (fst mr)) (snd mr)) (k_clus c))
+  + match k_status c with
   | 0 =>
       bit 0 (match model with
              | Ok mo => match k_cmp c with
